@@ -73,6 +73,10 @@ HEADER_FIELD_RE = re.compile(
         + TOKEN
         + "):"
         + OWS
+        # the leading OWS takes every blank there is: with an empty value the
+        # two OWS runs would otherwise share the blanks in every possible way
+        # before a mismatch is reported (quadratic time on "name:    ...\x01")
+        + "(?![ \t])"
         + "(?P<value>"
         + FIELD_VALUE
         + ")"
